@@ -98,6 +98,13 @@ def _ir_for(harness, lib_sources=(), extra_c=(), defines=(), tag=None):
             sys.stderr.write('command failed: %s\n%s\n' % (' '.join(cmd), se[-4000:]))
             raise RuntimeError('IR build failed for ' + cmd[-3])
         parts.append(o)
+    if file_hash(hpath, *shim_paths, extra=repo_hash() + ','.join(lib_sources) + ','.join(defines)) != key:
+        for p in parts:
+            try:
+                os.remove(p)
+            except OSError:
+                pass
+        raise RuntimeError('the source tree %s (or the harness) changed during the IR build; nothing was cached' % REPO)
     if len(parts) == 1:
         os.rename(parts[0], out)
     else:
@@ -131,6 +138,14 @@ def _native_lib_objects():
         if p.returncode != 0:
             sys.stderr.write(se[-4000:])
             raise RuntimeError('native build failed: ' + ' '.join(cmd))
+    if procs and repo_hash() != key:
+        # the tree changed while it was being compiled: these objects describe neither state
+        for o in objs:
+            try:
+                os.remove(o)
+            except OSError:
+                pass
+        raise RuntimeError('the source tree %s changed during the build; nothing was cached' % REPO)
     return objs
 
 
@@ -151,5 +166,12 @@ def _native_so(harness, defines=(), with_lib=True, sanitize=False, exclude=()):
     objs = [o for o in (native_lib_objects() if with_lib else []) if not any(o.endswith('.%s.o' % e) for e in exclude)]
     cmd = ['g++', '-std=c++11', '-O1', '-fPIC', '-shared', '-I' + REPO + '/include', '-I' + REPO + '/src', '-I' + os.path.join(VERIF, 'harness')] + \
           ['-D' + d for d in defines] + [hpath] + objs + ['-lgsl', '-lgslcblas', '-lm', '-o', out]
+    rh = repo_hash()
     sh(cmd)
+    if repo_hash() != rh or file_hash(hpath, extra=rh + ','.join(defines) + str(sanitize)) != key:
+        try:
+            os.remove(out)
+        except OSError:
+            pass
+        raise RuntimeError('the source tree %s changed during the build; nothing was cached' % REPO)
     return out
